@@ -82,7 +82,7 @@ func (h *harness) runModhash(c *mcase) {
 			switch o.Kind {
 			case "refresh":
 				list = nil
-				eps := make([]endpoint.Endpoint, len(o.Eps))
+				eps := callerSlice(len(o.Eps))
 				for i, x := range o.Eps {
 					eps[i] = c.ep(x)
 					if !inList(x) {
@@ -90,6 +90,7 @@ func (h *harness) runModhash(c *mcase) {
 					}
 				}
 				sel.Refresh(eps)
+				scribble(eps) // the selector must not share the caller's slice
 			case "add":
 				x := o.Eps[0]
 				if inList(x) {
@@ -172,9 +173,20 @@ func (h *harness) runModhash(c *mcase) {
 					cc := *c
 					cc.Hist = c.Hist[:oi+1]
 					cc.Codes = []uint32{code}
-					cc.Note = fmt.Sprintf("after op %d code %d: selected %s, slot rule gives %s (list %v, cycle length %d)", oi, code, got, want, list, len(cycle))
-					h.res.Violate(common.Violation{Signature: "C14:wrong-slot:modhash.Select",
-						What: "mod-hash did not send the code to slot (code mod N) of the installed list / weighted cycle",
+					gh := "error"
+					if err == nil {
+						gh = fmt.Sprintf("%q", e.Host)
+					}
+					wh := "error"
+					if len(list) > 0 {
+						wh = fmt.Sprintf("%q", unhexHost(strings.Split(want, ":")[0]))
+					}
+					cc.Note = fmt.Sprintf("after op %d code %d: selected %s, slot rule gives %s (installed list %v, cycle length %d)", oi, code, gh, wh, list, len(cycle))
+					sig, what := "C14:wrong-slot:modhash.Select", "mod-hash did not send the code to slot (code mod N) of the installed list / weighted cycle"
+					if err == nil && isGarbage(e.Host) {
+						sig, what = "C14:aliased-input:modhash.Refresh", "the selector shares the slice its caller passed to Refresh: overwriting that slice afterwards changed the routing"
+					}
+					h.res.Violate(common.Violation{Signature: sig, What: what,
 						Case: common.Case{Stream: "modhash", Op: cc, Impl: got, Note: cc.Note}})
 				}
 				// determinism
